@@ -882,7 +882,8 @@ def shrink(ctx, root, o, r, ref_r, kind):
 
 # ------------------------------------------------------------------------------------------------ PART 1 driver
 def end_to_end(ctx):
-    budget = 75 if ctx.tier == "quick" else 3000
+    budget = 75 if ctx.tier == "quick" else 3000     # seconds of this search (not of the Coq build before it)
+    t_start = time.time()
     with core.Scratch("vc20_") as root:
         pdir = make_payload(root)
         before = sorted(os.listdir(pdir)), sorted(os.listdir(os.path.join(pdir, "tree")))
@@ -898,7 +899,7 @@ def end_to_end(ctx):
         chunk = 600
         with ThreadPoolExecutor(max_workers=12) as ex:
             for s in range(0, len(jobs), chunk):
-                if ctx.elapsed() > budget:
+                if time.time() - t_start > budget:
                     stopped = True
                     break
                 for key, res in ex.map(work, jobs[s:s + chunk]):
@@ -1128,7 +1129,11 @@ def table_vs_introspection(ctx, cmap):
     import inspect
     text = open(os.path.join(core.GEN, "GenCli.v"), encoding="utf-8").read()
     recs = []
-    for m in REC_RE.finditer(text):
+    block = re.search(r"Definition create_args : list argspec :=\s*\[(.*?)\n\]\.", text, re.S)
+    if not block:
+        ctx.disagree("GenCli.create_args vs parser._actions", {"file": "Gen/GenCli.v"}, "no `Definition create_args` found", "")
+        return []
+    for m in REC_RE.finditer(block.group(1)):
         flags = [x.replace('""', '"') for x in re.findall(r'"((?:[^"]|"")*)"', m.group(1))]
         recs.append({"flags": flags, "dest": m.group(2), "action": m.group(3), "nargs": m.group(4),
                      "default": " ".join(m.group(5).split()), "const": m.group(6).strip(),
